@@ -329,6 +329,7 @@ impl <N: NumericOps> ArrayTrigonometric<N> for Array<N> {
         } else {
             let axis = axis.unwrap_or(-1);
             let axis = self.normalize_axis(axis);
+            self.axis_in_bounds(axis)?;
 
             let b_shape = self.get_shape()?.update_at(axis, 1);
             let period = period.broadcast_to(b_shape.clone())?;
